@@ -29,6 +29,9 @@ type Printer struct {
 	// Points counts the layout choice points that were offered (C06 evidence).
 	Points map[string]int
 	depth  int // > 0 while rendering inside parentheses / brackets / braces
+	// ParenSliceArgs writes a slice literal that is an application argument in
+	// parentheses (tinyfo only accepts it let-bound, piped or parenthesised).
+	ParenSliceArgs bool
 }
 
 func NewPrinter(l Layout) *Printer {
@@ -129,6 +132,9 @@ func (p *Printer) Expr(e Expr, col int, ctx int) []string {
 	switch ctx {
 	case ctxArg:
 		if !isAtomic(e) {
+			return p.paren(e, col)
+		}
+		if _, ok := e.(SliceLit); ok && p.ParenSliceArgs {
 			return p.paren(e, col)
 		}
 	case ctxTarget, ctxElem:
